@@ -21,11 +21,11 @@ class ShardResult:
         self.counts = {}
 
 
-def validate_trace(work, module, trace_file, timeout=900, env_extra=None, cfg=TRACE_CFG, deque=False):
+def validate_trace(work, module, trace_file, timeout=900, env_extra=None, cfg=TRACE_CFG, deque=False, heap="1g"):
     env = {"TRACE": trace_file}
     if env_extra:
         env.update(env_extra)
-    res = vf.tlc(work, module, cfg, env_extra=env, timeout=timeout, deque=deque)
+    res = vf.tlc(work, module, cfg, env_extra=env, timeout=timeout, deque=deque, heap=heap)
     done = [s for s in res.printed if s.startswith("DONE ")]
     if not done:
         raise vf.Infra("trace validation of %s did not finish:\n%s" % (trace_file, res.out[-3000:]))
@@ -54,7 +54,7 @@ def run_shards(work, module, shard_jobs, timeout=900, keep=False):
                 m["args"] = job["args"]
             open(path, "a").close()
             return dict(mm=[m], total=0, traces=0, states=0, trans=0, wall=0.0, first=None, path=path, kinds={})
-        res, mm, total = validate_trace(work, module, path, timeout=timeout, env_extra=job.get("env"))
+        res, mm, total = validate_trace(work, module, path, timeout=timeout, env_extra=job.get("env"), heap=job.get("heap", "1g"))
         for m in mm:
             m["shard"] = job["name"]
             m["file"] = path
